@@ -507,6 +507,22 @@ inline GraphSpec gen_graph(Rng &r, const GenOpts &o) {
     return g;
 }
 
+
+// graphs beyond the usual size bound with pairwise DISTINCT edge weights 1..m (path sums still tie): size / "no ties" shortcuts
+inline GraphSpec gen_large_distinct(Rng &r, int lo = 65, int hi = 110) {
+    GraphSpec g; int n = (int) r.range(lo, hi); Topo t;
+    int kind = (int) r.below(3);
+    if (kind == 0) { for (int i = 0; i < n; i++) add_e(t, i, (i + 1) % n); int ch = (int) r.range(3, 25); for (int c = 0; c < ch; c++) add_e(t, (int) r.below(n), (int) r.below(n)); }
+    else if (kind == 1) { topo_tree(r, t, n); int ex = (int) r.range(5, 40); for (int c = 0; c < ex; c++) add_e(t, (int) r.below(n), (int) r.below(n)); }
+    else { int a = (int) r.range(4, 9); int b = n / a; n = topo_grid(t, a, b, false); }
+    dedup(t);
+    std::vector<int> perm(n); std::iota(perm.begin(), perm.end(), 0); r.shuffle(perm);
+    std::vector<ll> ws(t.size()); std::iota(ws.begin(), ws.end(), 1); r.shuffle(ws);
+    g.n = n; size_t k = 0; for (auto &e : t) { int a_ = perm[e.first], b_ = perm[e.second]; if (r.chance(0.5)) std::swap(a_, b_); g.edges.push_back({a_, b_, ws[k++]}); }
+    r.shuffle(g.edges); g.family = "large_distinct_weights"; g.tie_rich = false;
+    return g;
+}
+
 // ------------------------------------------------------------------------------------------------
 // Building a boost graph from a spec
 // ------------------------------------------------------------------------------------------------
